@@ -285,3 +285,469 @@ pub fn replay_c16(prop: &str, case: &Value) -> Vec<Violation> {
     // keep only the recorded row's class family (the whole table is recomputed)
     out.viols.into_values().filter(|v| v.case["row"] == case["row"]).collect()
 }
+
+// ---------------------------------------------------------------------------
+// C14: construction macros
+// ---------------------------------------------------------------------------
+
+#[derive(Clone, Debug)]
+pub struct Inv {
+    pub mac: &'static str,
+    /// 0: (K)   1: (K, N)   2: (K) => [E]   3: (K, N) => [E]
+    pub form: usize,
+    /// listed nodes in listing order: (key, None = list omitted, Some(targets))
+    pub nodes: Vec<(u8, Option<Vec<u8>>)>,
+}
+
+impl Inv {
+    pub fn directed(&self) -> bool {
+        self.mac.ends_with("digraph")
+    }
+    fn node_val(k: u8) -> i64 {
+        k as i64 * 10 + 1
+    }
+    /// Source text of the invocation and the edges in global listing order.
+    pub fn source(&self) -> (String, Vec<(u8, u8, i64)>) {
+        let has_n = self.form == 1 || self.form == 3;
+        let has_e = self.form >= 2;
+        let mut s = format!("{}![ ", self.mac);
+        s += match self.form {
+            0 => "(u8) ",
+            1 => "(u8, i64) ",
+            2 => "(u8) => [i64] ",
+            _ => "(u8, i64) => [i64] ",
+        };
+        let mut edges = Vec::new();
+        let mut ev = 0i64;
+        for (k, list) in &self.nodes {
+            if has_n {
+                s += &format!("({}, {}) => ", k, Self::node_val(*k));
+            } else {
+                s += &format!("({}) => ", k);
+            }
+            if let Some(ts) = list {
+                let items: Vec<String> = ts
+                    .iter()
+                    .map(|t| {
+                        ev += 1;
+                        edges.push((*k, *t, if has_e { ev } else { 0 }));
+                        if has_e {
+                            format!("({}, {})", t, ev)
+                        } else {
+                            format!("{}", t)
+                        }
+                    })
+                    .collect();
+                s += &format!("[{}] ", items.join(", "));
+            }
+        }
+        s += "]";
+        (s, edges)
+    }
+    /// Rust expression of the expected denotation.
+    pub fn expectation(&self) -> String {
+        let (_, edges) = self.source();
+        let listed: Vec<u8> = self.nodes.iter().map(|n| n.0).collect();
+        if let Some(bad) = edges.iter().find(|e| !listed.contains(&e.1)) {
+            return format!("Exp::Panic(\"\\\"{}\\\"\")", bad.1);
+        }
+        let has_n = self.form == 1 || self.form == 3;
+        let mut nodes = Vec::new();
+        for k in &listed {
+            let own: Vec<String> = edges.iter().filter(|e| e.0 == *k).map(|e| format!("({}, {})", e.1, e.2)).collect();
+            let inc: Vec<String> = edges.iter().filter(|e| e.1 == *k).map(|e| format!("({}, {})", e.0, e.2)).collect();
+            nodes.push(format!("({}u8, {}i64, vec![{}], vec![{}])", k, if has_n { Self::node_val(*k) } else { 0 }, own.join(", "), inc.join(", ")));
+        }
+        format!("Exp::Graph({}, vec![{}])", listed.len(), nodes.join(", "))
+    }
+}
+
+fn edge_list_options(keys: &[u8], max_len: usize) -> Vec<Option<Vec<u8>>> {
+    let mut v: Vec<Option<Vec<u8>>> = vec![None, Some(vec![])];
+    let mut frontier: Vec<Vec<u8>> = vec![vec![]];
+    for _ in 0..max_len {
+        let mut nx = Vec::new();
+        for b in &frontier {
+            for k in keys {
+                let mut c = b.clone();
+                c.push(*k);
+                nx.push(c);
+            }
+        }
+        for c in &nx {
+            v.push(Some(c.clone()));
+        }
+        frontier = nx;
+    }
+    v
+}
+
+pub const MACROS: [&str; 4] = ["digraph", "ungraph", "sync_digraph", "sync_ungraph"];
+
+pub fn c14_invocations(thorough: bool) -> Vec<Inv> {
+    let mut out = Vec::new();
+    for mac in MACROS {
+        for form in 0..4 {
+            for n in 1..=3usize {
+                let orders: Vec<Vec<u8>> = if n == 1 { vec![vec![0]] } else if thorough || n == 2 { vec![(0..n as u8).collect(), (0..n as u8).rev().collect()] } else { vec![(0..n as u8).collect()] };
+                for order in orders {
+                    let opts = edge_list_options(&order, 2);
+                    let mut idx = vec![0usize; n];
+                    loop {
+                        let total: usize = idx.iter().map(|i| opts[*i].as_ref().map_or(0, |l| l.len())).sum();
+                        if thorough || n <= 2 || total <= 2 {
+                            out.push(Inv { mac, form, nodes: order.iter().zip(idx.iter()).map(|(k, i)| (*k, opts[*i].clone())).collect() });
+                        }
+                        let mut p = 0;
+                        loop {
+                            idx[p] += 1;
+                            if idx[p] < opts.len() {
+                                break;
+                            }
+                            idx[p] = 0;
+                            p += 1;
+                            if p == n {
+                                break;
+                            }
+                        }
+                        if p == n {
+                            break;
+                        }
+                    }
+                }
+            }
+            // an edge naming an unlisted key (7), at every position of a short list
+            for n in 1..=2u8 {
+                let keys: Vec<u8> = (0..n).collect();
+                for bad_node in 0..n {
+                    for list in [vec![7u8], vec![0, 7], vec![7, 0]] {
+                        let nodes = keys.iter().map(|k| (*k, if *k == bad_node { Some(list.clone()) } else { Some(vec![0]) })).collect();
+                        out.push(Inv { mac, form, nodes });
+                    }
+                }
+            }
+        }
+    }
+    out
+}
+
+const C14_PRELUDE: &str = r#"
+#![allow(unused_imports, unused_variables, dead_code, unused_mut, clippy::all)]
+use gdsl::*;
+use std::sync::Mutex;
+
+pub type Lst = Vec<(u8, i64)>;
+#[derive(Debug)]
+pub enum Exp {
+    /// (number of nodes, per listed node: key, value, own listed edges in order, edges listed towards it)
+    Graph(usize, Vec<(u8, i64, Lst, Lst)>),
+    Panic(&'static str),
+}
+#[derive(Debug)]
+pub struct Obs {
+    pub len: usize,
+    /// per listed key: None if missing, else (value, outgoing / incident list, incoming list)
+    pub nodes: Vec<Option<(i64, Lst, Lst)>>,
+}
+pub static LAST_PANIC: Mutex<String> = Mutex::new(String::new());
+
+pub fn catch<F: FnOnce() -> Obs + std::panic::UnwindSafe>(f: F) -> Result<Obs, String> {
+    match std::panic::catch_unwind(f) {
+        Ok(o) => Ok(o),
+        Err(_) => Err(LAST_PANIC.lock().unwrap().clone()),
+    }
+}
+
+fn multiset(l: &Lst) -> Lst {
+    let mut v = l.clone();
+    v.sort();
+    v
+}
+fn is_subsequence(a: &Lst, b: &Lst) -> bool {
+    let mut i = 0;
+    for x in b {
+        if i < a.len() && a[i] == *x {
+            i += 1;
+        }
+    }
+    i == a.len()
+}
+
+pub fn judge(directed: bool, got: &Result<Obs, String>, exp: &Exp) -> Result<(), String> {
+    match (got, exp) {
+        (Err(m), Exp::Panic(k)) => {
+            if m.contains(k) { Ok(()) } else { Err(format!("panicked, but the message does not name the key {}: {}", k, m)) }
+        }
+        (Ok(o), Exp::Panic(k)) => Err(format!("expected a panic naming {}, got a graph with {} nodes", k, o.len)),
+        (Err(m), Exp::Graph(..)) => Err(format!("well-formed invocation panicked: {}", m)),
+        (Ok(o), Exp::Graph(n, nodes)) => {
+            if o.len != *n {
+                return Err(format!("graph has {} nodes, {} listed", o.len, n));
+            }
+            for (i, (k, val, own, inc)) in nodes.iter().enumerate() {
+                let (v, out, inn) = match &o.nodes[i] {
+                    Some(x) => x,
+                    None => return Err(format!("listed node {} is missing", k)),
+                };
+                if v != val {
+                    return Err(format!("node {} has value {}, listed {}", k, v, val));
+                }
+                if directed {
+                    if out != own {
+                        return Err(format!("node {} has outgoing edges {:?}, listed {:?}", k, out, own));
+                    }
+                    if multiset(inn) != multiset(inc) {
+                        return Err(format!("node {} has incoming edges {:?}, listed towards it {:?}", k, inn, inc));
+                    }
+                } else {
+                    let mut all = own.clone();
+                    all.extend(inc.iter().cloned());
+                    if multiset(out) != multiset(&all) {
+                        return Err(format!("node {} has incident edges {:?}, listed {:?} + towards it {:?}", k, out, own, inc));
+                    }
+                    if !is_subsequence(own, out) {
+                        return Err(format!("node {}: own listed edges {:?} are not in listed order within {:?}", k, own, out));
+                    }
+                }
+            }
+            Ok(())
+        }
+    }
+}
+
+#[macro_export]
+macro_rules! obs_dir {
+    ($m:ident, $g:expr, $keys:expr, $nv:expr, $ev:expr) => {{
+        // the macro must build a graph of its own flavour
+        let g: gdsl::$m::Graph<u8, _, _> = $g;
+        let nv = $nv;
+        let ev = $ev;
+        let mut nodes = Vec::new();
+        for k in $keys.iter() {
+            nodes.push(g.get(k).map(|n| {
+                (
+                    nv(n.value()),
+                    n.iter_out().map(|e| (*e.1.key(), ev(&e.2))).collect::<Vec<(u8, i64)>>(),
+                    n.iter_in().map(|e| (*e.0.key(), ev(&e.2))).collect::<Vec<(u8, i64)>>(),
+                )
+            }));
+        }
+        $crate::Obs { len: g.len(), nodes }
+    }};
+}
+#[macro_export]
+macro_rules! obs_und {
+    ($m:ident, $g:expr, $keys:expr, $nv:expr, $ev:expr) => {{
+        let g: gdsl::$m::Graph<u8, _, _> = $g;
+        let nv = $nv;
+        let ev = $ev;
+        let mut nodes = Vec::new();
+        for k in $keys.iter() {
+            nodes.push(g.get(k).map(|n| (nv(n.value()), n.iter().map(|e| (*e.1.key(), ev(&e.2))).collect::<Vec<(u8, i64)>>(), Vec::new())));
+        }
+        $crate::Obs { len: g.len(), nodes }
+    }};
+}
+
+pub fn run(cases: &[(&str, bool, fn() -> Result<Obs, String>, fn() -> Exp)]) {
+    std::panic::set_hook(Box::new(|info| {
+        let msg = if let Some(s) = info.payload().downcast_ref::<&str>() { s.to_string() } else if let Some(s) = info.payload().downcast_ref::<String>() { s.clone() } else { String::new() };
+        *LAST_PANIC.lock().unwrap() = msg;
+    }));
+    let mut n = 0;
+    for (src, directed, f, e) in cases {
+        n += 1;
+        let got = f();
+        let exp = e();
+        match judge(*directed, &got, &exp) {
+            Ok(()) => println!("PASS\t{}\t{}", src, matches!(exp, Exp::Panic(_))),
+            Err(why) => println!("FAIL\t{}\t{}", src, why),
+        }
+    }
+    println!("DONE\t{}", n);
+}
+"#;
+
+fn c14_case_code(i: usize, inv: &Inv) -> (String, String) {
+    let (src, _) = inv.source();
+    let keys: Vec<String> = inv.nodes.iter().map(|n| format!("{}u8", n.0)).collect();
+    let nv = if inv.form == 1 || inv.form == 3 { "|n: &i64| *n" } else { "|_n: &()| 0i64" };
+    let ev = if inv.form >= 2 { "|e: &i64| *e" } else { "|_e: &()| 0i64" };
+    let obs = if inv.directed() { "obs_dir" } else { "obs_und" };
+    let f = format!(
+        "fn c{i}() -> Result<Obs, String> {{ catch(|| {obs}!({mac}, {src}, [{keys}], {nv}, {ev})) }}\nfn e{i}() -> Exp {{ {exp} }}\n",
+        i = i,
+        obs = obs,
+        mac = inv.mac,
+        src = src,
+        keys = keys.join(", "),
+        nv = nv,
+        ev = ev,
+        exp = inv.expectation()
+    );
+    let entry = format!("({:?}, {}, c{} as fn() -> Result<Obs, String>, e{} as fn() -> Exp)", src, inv.directed(), i, i);
+    (f, entry)
+}
+
+/// Extra, hand-enumerated programs: the `()` arm and the *_node! / *_connect! helpers.
+fn c14_helper_program() -> String {
+    let mut s = String::from("use c14_cases::*;\nuse gdsl::*;\nfn main() {\n    let mut n = 0;\n");
+    for mac in MACROS {
+        let directed = mac.ends_with("digraph");
+        s += &format!("    {{ let g = {m}![]; n += 1; if g.len() == 0 && g.is_empty() {{ println!(\"PASS\\t{m}![]\\tfalse\"); }} else {{ println!(\"FAIL\\t{m}![]\\tnot empty\"); }} }}\n", m = mac);
+        s += &format!(
+            "    {{ let a: gdsl::{m}::Node<u8, (), ()> = {m}_node!(5u8); let b: gdsl::{m}::Node<u8, i64, ()> = {m}_node!(6u8, 60i64); n += 1;\n      if *a.key() == 5 && *a.value() == () && *b.key() == 6 && *b.value() == 60 {{ println!(\"PASS\\t{m}_node!\\tfalse\"); }} else {{ println!(\"FAIL\\t{m}_node!\\twrong key or value\"); }} }}\n",
+            m = mac
+        );
+        if directed {
+            s += &format!(
+                "    {{ let a: gdsl::{m}::Node<u8, (), ()> = {m}_node!(1u8); let b = {m}_node!(2u8); {m}_connect!(&a => &b); {m}_connect!(&a => &a); n += 1;\n      let l: Vec<u8> = a.iter_out().map(|e| *e.1.key()).collect(); let lb: Vec<u8> = b.iter_in().map(|e| *e.0.key()).collect();\n      if l == vec![2, 1] && lb == vec![1] {{ println!(\"PASS\\t{m}_connect!(a => b)\\tfalse\"); }} else {{ println!(\"FAIL\\t{m}_connect!(a => b)\\tadjacency {{:?}} / {{:?}}\", l, lb); }} }}\n",
+                m = mac
+            );
+            s += &format!(
+                "    {{ let a = gdsl::{m}::Node::<u8, i64, i64>::new(1, 10); let b = {m}_node!(2u8, 20i64); {m}_connect!(&a => &b, 7i64); {m}_connect!(&b => &a, 8i64); n += 1;\n      let l: Vec<(u8, i64)> = a.iter_out().map(|e| (*e.1.key(), e.2)).collect();\n      if l == vec![(2, 7)] {{ println!(\"PASS\\t{m}_connect!(a => b, e)\\tfalse\"); }} else {{ println!(\"FAIL\\t{m}_connect!(a => b, e)\\tadjacency {{:?}}\", l); }} }}\n",
+                m = mac
+            );
+        } else {
+            s += &format!(
+                "    {{ let a: gdsl::{m}::Node<u8, (), ()> = {m}_node!(1u8); let b = {m}_node!(2u8); {m}_connect!(&a => &b); {m}_connect!(&a => &a); n += 1;\n      let mut l: Vec<u8> = a.iter().map(|e| *e.1.key()).collect(); l.sort(); let lb: Vec<u8> = b.iter().map(|e| *e.1.key()).collect();\n      if l == vec![1, 1, 2] && lb == vec![1] {{ println!(\"PASS\\t{m}_connect!(a => b)\\tfalse\"); }} else {{ println!(\"FAIL\\t{m}_connect!(a => b)\\tadjacency {{:?}} / {{:?}}\", l, lb); }} }}\n",
+                m = mac
+            );
+            s += &format!(
+                "    {{ let a = gdsl::{m}::Node::<u8, i64, i64>::new(1, 10); let b = {m}_node!(2u8, 20i64); {m}_connect!(&a => &b, 7i64); {m}_connect!(&b => &a, 8i64); n += 1;\n      let mut l: Vec<(u8, i64)> = a.iter().map(|e| (*e.1.key(), e.2)).collect(); l.sort();\n      if l == vec![(2, 7), (2, 8)] {{ println!(\"PASS\\t{m}_connect!(a => b, e)\\tfalse\"); }} else {{ println!(\"FAIL\\t{m}_connect!(a => b, e)\\tadjacency {{:?}}\", l); }} }}\n",
+                m = mac
+            );
+        }
+    }
+    s += "    println!(\"DONE\\t{}\", n);\n}\n";
+    s
+}
+
+pub fn c14(job: &Job, out: &mut Out) {
+    let thorough = job.tier != "quick";
+    let vd = crate::verif_dir();
+    let gen = PathBuf::from(format!("{}/.work/gen/c14-{}", vd, job.tier));
+    let target = PathBuf::from(format!("{}/.work/target-probe-on", vd));
+    let _ = std::fs::remove_dir_all(&gen);
+    std::fs::create_dir_all(gen.join("src/bin")).expect("mkdir");
+    crate::progress::set_case(|| json!({"kind":"c14","tier":job.tier}).to_string());
+    std::fs::write(
+        gen.join("Cargo.toml"),
+        format!(
+            "[package]\nname = \"c14-cases\"\nversion = \"0.1.0\"\nedition = \"2021\"\npublish = false\n\n[lib]\npath = \"src/lib.rs\"\n\n[dependencies]\ngdsl = {{ path = \"{}\" }}\n\n[profile.dev]\ndebug = false\nopt-level = 0\nincremental = false\n\n[workspace]\n",
+            repo_dir()
+        ),
+    )
+    .expect("write");
+    let _ = std::fs::copy(format!("{}/Cargo.lock", repo_dir()), gen.join("Cargo.lock"));
+    std::fs::write(gen.join("src/lib.rs"), C14_PRELUDE).expect("write");
+    let invs = c14_invocations(thorough);
+    let nbins = if thorough { 48 } else { 16 };
+    let mut bins: Vec<(String, Vec<String>)> = (0..nbins).map(|_| (String::new(), Vec::new())).collect();
+    for (i, inv) in invs.iter().enumerate() {
+        let (f, entry) = c14_case_code(i, inv);
+        let b = &mut bins[i % nbins];
+        b.0 += &f;
+        b.1.push(entry);
+    }
+    for (bi, (fns, entries)) in bins.iter().enumerate() {
+        let src = format!("#![allow(unused_imports, unused_variables, dead_code, unused_mut)]\nuse c14_cases::*;\nuse gdsl::*;\n{}\nfn main() {{\n    run(&[\n        {}\n    ]);\n}}\n", fns, entries.join(",\n        "));
+        std::fs::write(gen.join(format!("src/bin/shard_{}.rs", bi)), src).expect("write");
+    }
+    std::fs::write(gen.join("src/bin/helpers.rs"), c14_helper_program()).expect("write");
+    let o = cargo(&gen, &target, true, &["build", "--bins", "--quiet"]).expect("cargo");
+    if !o.status.success() {
+        // A well-formed invocation that no longer compiles is a violation
+        // (the property quantifies over every well-formed invocation), but
+        // it cannot be told apart from a broken harness automatically:
+        let err = String::from_utf8_lossy(&o.stderr).to_string();
+        let first: Vec<&str> = err.lines().filter(|l| l.starts_with("error") || l.contains("-->")).take(8).collect();
+        out.stats.inc("evaluations");
+        out.report(Violation {
+            property: job.property.clone(),
+            engine: "progsweep".into(),
+            flavour: "macros".into(),
+            class: "well-formed-invocation-does-not-compile".into(),
+            what: format!("the generated macro programs do not compile against the working tree: {}", first.join(" | ")),
+            case: json!({"kind":"c14","tier":job.tier,"src":"<build>"}),
+            order: 0,
+        });
+        return;
+    }
+    let mut names: Vec<String> = (0..nbins).map(|i| format!("shard_{}", i)).collect();
+    names.push("helpers".into());
+    let mut total = 0u64;
+    for name in names {
+        crate::progress::tick();
+        let o = run_cmd(&mut Command::new(target.join("debug").join(&name))).expect("run shard");
+        let txt = String::from_utf8_lossy(&o.stdout).to_string();
+        let mut done = false;
+        for l in txt.lines() {
+            let f: Vec<&str> = l.split('\t').collect();
+            match f[0] {
+                "PASS" => {
+                    total += 1;
+                    out.stats.inc("evaluations");
+                    out.stats.inc("nontrivial");
+                    if f.get(2) == Some(&"true") {
+                        out.stats.inc("unlisted_key_panics_checked");
+                    }
+                    if out.stats.samples.len() < 3 && f[1].len() > 60 {
+                        out.stats.sample(json!({"invocation": f[1], "result": "matches the denotation"}));
+                    }
+                    if out.stats.outcomes.len() < 2000 {
+                        out.stats.outcome(crate::report::digest(f[1]));
+                    }
+                }
+                "FAIL" => {
+                    total += 1;
+                    out.stats.inc("evaluations");
+                    let src = f[1].to_string();
+                    let mac = src.split('!').next().unwrap_or("").to_string();
+                    let why = f.get(2).unwrap_or(&"").to_string();
+                    let kind = why.split(|c: char| c.is_ascii_digit() || c == '[' || c == '{').next().unwrap_or("").trim().replace(' ', "-");
+                    out.report(Violation {
+                        property: job.property.clone(),
+                        engine: "progsweep".into(),
+                        flavour: "macros".into(),
+                        class: format!("{}/{}/{}", mac, form_of(&src), kind),
+                        what: format!("{}: {}", src, why),
+                        case: json!({"kind":"c14","tier":job.tier,"src":src}),
+                        order: src.len() as u64,
+                    });
+                }
+                "DONE" => done = true,
+                _ => {}
+            }
+        }
+        if !done {
+            panic!("GDSL_MC_HARNESS: generated program {} did not finish (status {:?}): {}", name, o.status, String::from_utf8_lossy(&o.stderr).lines().take(5).collect::<Vec<_>>().join(" | "));
+        }
+    }
+    out.stats.max("invocations_generated", invs.len() as u64);
+    if total < invs.len() as u64 {
+        panic!("GDSL_MC_HARNESS: {} invocations generated but only {} reported", invs.len(), total);
+    }
+}
+
+fn form_of(src: &str) -> &'static str {
+    if src.contains("(u8, i64) => [i64]") {
+        "form4:(K,N)=>[E]"
+    } else if src.contains("(u8) => [i64]") {
+        "form3:(K)=>[E]"
+    } else if src.contains("(u8, i64)") {
+        "form2:(K,N)"
+    } else if src.contains("(u8)") {
+        "form1:(K)"
+    } else {
+        "helper"
+    }
+}
+
+pub fn replay_c14(prop: &str, case: &Value) -> Vec<Violation> {
+    let tier = case["tier"].as_str().unwrap_or("quick").to_string();
+    let job = Job { property: prop.into(), engine: "progsweep".into(), flavour: "macros".into(), tier, params: json!({}), shard: 0, nshards: 1, trace: false };
+    let mut out = Out::new();
+    c14(&job, &mut out);
+    out.viols.into_values().filter(|v| v.case["src"] == case["src"]).collect()
+}
